@@ -1,12 +1,30 @@
-"""C13 -- symmetry conversions of the core: TLC exhaustive run of SymmetryConversion, every explored edge walked through
-real ThirdCoreHexToFullCoreChanger / EdgeAssemblyChanger calls on generated third cores, random long histories
-validated by TLC as traces, the literal restore clause that TLC refutes confirmed on the real code."""
+"""C13 -- symmetry conversions of the core multiply and restore the model exactly.
+
+spec/core/SymmetryConversion.tla is the reference design (one action per public call of ThirdCoreHexToFullCoreChanger /
+EdgeAssemblyChanger and per branch of it); this module binds it to the real code:
+
+1. exhaustive TLC run of the reference (all invariants, per-action coverage) + the literal restore clause that TLC refutes
+   (interpretation I2), whose refuting behaviour is run on the real code and reported as a note;
+2. spec -> code: the graph TLC explores from a family of loading patterns is printed edge by edge with the observation of
+   every state; walks of real convert / restorePreviousGeometry / addEdgeAssemblies / removeEdgeAssemblies calls on
+   generated third cores (harness/gen_core.py assemblies, random block parameters) take every edge at least once and compare,
+   after EVERY call, the complete projection (cells, which original each assembly is / copies, rotation, symmetry factor,
+   reported mass and volume fractions, stored parameter scales, every other parameter and the block contents unchanged,
+   childrenByLocator / assembliesByName / blocksByName / string-location lookups, name uniqueness, object sharing) and the
+   core totals (count, volume, mass of every nuclide, calcTotalParam / getTotalBlockParam of volume-integrated parameters,
+   with addSymmetricPositions and calcBasedOnFullObj) against the exact rational coefficient vectors TLC printed;
+3. code -> spec: seeded random call histories on random loading patterns of a 5-ring third core (holes, edge cells) are
+   recorded from the real code and validated by TLC event by event; for some of them (and for the full test reactor in the
+   thorough tier) TLC also prints the coefficient vectors of every matched state and the recorded totals are compared.
+
+Nothing here computes an expected value: images, factors, scales, lookups and coefficients all come from TLC's evaluation of
+the specification; the adapter builds, applies, measures ratios against the values the assemblies were built with, compares.
+"""
 import json
 import math
 import os
 import random
 import re
-import time
 from collections import deque
 from fractions import Fraction
 
@@ -491,7 +509,11 @@ class ReactorAdapter(CoreAdapter):
         from armi.reactor.tests.test_reactors import loadTestReactor
         from armi.tests import TEST_ROOT
 
-        o, r = loadTestReactor(TEST_ROOT)
+        import contextlib
+        import io
+
+        with contextlib.redirect_stdout(io.StringIO()):     # the loader's banner and interface log go to stdout
+            o, r = loadTestReactor(TEST_ROOT)
         w = World()
         w.r, w.core, w.o = r, r.core, o
         w.orig, w.V0, w.M0, w.A0 = {}, {}, {}, {}
@@ -506,10 +528,6 @@ class ReactorAdapter(CoreAdapter):
         self.finish(w)
         w.ch = self.gc.ThirdCoreHexToFullCoreChanger(o.cs)
         return w
-
-    def finish(self, w):
-        # the blueprint assemblies have their own block stacks; fingerprints/params are taken as loaded
-        super().finish(w)
 
 
 # ------------------------------------------------------------------------------------------------------------
@@ -586,7 +604,7 @@ def _div(root, steps, act, prev, d, exp, got):
             "expected": exp, "observed": got, "diverged_at": len(steps)}
 
 
-def cover(graph, ad, obs_of, max_walk, budget_s, rng):
+def cover(graph, ad, obs_of, max_walk, max_calls):
     """Walk every edge of the emitted graph through the real code with as few rebuilt worlds as possible.
     Returns (n_steps, n_edges_done, n_nontrivial, n_worlds, divergences, n_edges_left)."""
     todo = {}
@@ -596,7 +614,6 @@ def cover(graph, ad, obs_of, max_walk, budget_s, rng):
     total = len(todo)
     divs, steps_done, worlds, nontriv = [], 0, 0, 0
     bad = set()   # edges at which the real code diverged: never walked again (what lies only behind them stays unvisited)
-    t0 = time.time()
 
     def nearest(cur):
         """shortest list of edges from cur that ends with an edge still to do"""
@@ -615,7 +632,7 @@ def cover(graph, ad, obs_of, max_walk, budget_s, rng):
         return None
 
     for rk in list(graph.roots):
-        while time.time() - t0 < budget_s:
+        while steps_done < max_calls:
             plan = nearest(rk)
             if plan is None:
                 break
@@ -738,7 +755,6 @@ def check_side_totals(rep, ad, res, side, prefix):
 # ------------------------------------------------------------------------------------------------------------
 _SELFTEST = False
 _EMIT_CACHE = {}
-_DOM_CACHE = {}
 
 
 def emitted(cfg):
@@ -839,8 +855,8 @@ def phase_walks(rep, thorough, seed):
     edges = [p for p in eres.prints if isinstance(p, dict) and "act" in p]
     g = rp.Graph(edges)
     ad = CoreAdapter(seed, all_cells=conf[0]["all"])
-    budget = 300 if thorough else 45
-    nsteps, ndone, nontriv, nworlds, divs, left = cover(g, ad, obs_of, max_walk=60, budget_s=budget, rng=random.Random(seed))
+    # deterministic cap on the number of real calls (quick: the whole graph is walked; thorough: ~13 k calls cover it)
+    nsteps, ndone, nontriv, nworlds, divs, left = cover(g, ad, obs_of, max_walk=60, max_calls=16000 if thorough else 4000)
     if ndone == 0:
         raise tlc.MachineryError("no edges replayed")
     rep.add_replay("walks", ndone, nontriv,
@@ -848,9 +864,9 @@ def phase_walks(rep, thorough, seed):
                    "generated third core, the complete projection and all totals compared after every call; non-trivial = the "
                    "call changes the abstract state")
     rep.extra["walks"] = {"edges": len(g.edges), "edges_walked": ndone, "calls_made": nsteps, "worlds_built": nworlds,
-                          "edges_not_reached_in_budget": left, "states": g.states()}
+                          "edges_not_walked": left, "states": g.states()}
     if left and not divs:
-        rep.note("%d of %d edges were not reached within the time budget of this tier" % (left, len(g.edges)))
+        rep.note("%d of %d edges were not reached within the call budget of this tier" % (left, len(g.edges)))
     for d in divs:
         k = key_of("replay", d["root"]["pat"], d["prev"], d["action"]["br"], d["first_difference"], d["observed"])
         rep.violation(k, "real converters diverge from SymmetryConversion at call %d (%s after %s) on pattern %s: %s" % (
@@ -957,7 +973,11 @@ def replay(payload):
             traceback.print_exc()
             print("diverges: %s escaped from the real code" % type(ex).__name__)
             return 1
-        print(json.dumps({"first_difference": d, "observed": got}, indent=1, default=str) if d else "no divergence: behaviour conforms")
+        if d:
+            print(json.dumps({"observed": got}, indent=1, default=str))
+            print("diverges after %s: %s" % ([a["n"] for a in payload["behaviour"]], d))
+        else:
+            print("no divergence: behaviour conforms")
         return 1 if d else 0
     if payload.get("direction") == "trace":
         t = payload["trace"]
@@ -996,9 +1016,64 @@ def selftest():
         return [v["key"] for v in rep.violations]
 
     try:
-        return run_mutants(mutants(), detect)
+        rc = run_mutants(mutants(), detect)
+        return 1 if corrupted_traces() or rc else 0
     finally:
         _SELFTEST = False
+
+
+def corrupted_traces():
+    """the trace validator must reject recorded histories with one field corrupted / one effective event dropped / one call
+    renamed, and accept them untouched.  Returns the number of corruptions it let through."""
+    import copy
+
+    dom = dom_r5()
+    ad = CoreAdapter(7, all_cells=dom["all"])
+    pat = [(-1, 2), (0, 0), (1, 0), (1, 1), (2, -1), (3, -1), (4, -2)]
+    calls = [{"n": "addEdges", "kept": True}, {"n": "convert", "kept": False}, {"n": "restore", "kept": False},
+             {"n": "addEdges", "kept": False}, {"n": "removeEdges", "kept": True}]
+    good, _ = drive(ad, ad.build_cells(pat), calls, "good", pat, False)
+    if any("exception" in e["post"] for e in good["ev"]):
+        print("corrupted-trace test skipped: the unmutated code raised on the reference history (see the findings of the check)")
+        return 0
+
+    def variant(tid, fn):
+        t = copy.deepcopy(good)
+        t["id"] = tid
+        fn(t)
+        return t
+
+    def scale(t):
+        t["ev"][1]["post"]["asm"][0]["ps"] = [2, 1]
+
+    def drop(t):
+        del t["ev"][1]
+
+    def rename(t):
+        t["ev"][3]["a"]["n"] = "removeEdges"
+
+    def lookup(t):
+        t["ev"][2]["post"]["staleNames"] = 2
+
+    def image(t):
+        c = t["ev"][1]["post"]["cells"]
+        c[0], c[1] = c[1], c[0]
+
+    traces = [good, variant("ps-of-a-copy-doubled", scale), variant("convert-event-dropped", drop), variant("addEdges-renamed", rename),
+              variant("purged-names-still-listed", lookup), variant("two-cells-exchanged", image)]
+    bad, _stats = tracecheck.validate(TRACE, "SymmetryConversion_trace.cfg", MODDIR, traces, timeout=3000)
+    rejected = {b["trace"]["id"] for b in bad}
+    missed = 0
+    if "good" in rejected:
+        print("MISSED  the untouched reference history was rejected")
+        missed += 1
+    for t in traces[1:]:
+        if t["id"] in rejected:
+            print("caught  corrupted trace: %s" % t["id"])
+        else:
+            print("MISSED  corrupted trace: %s" % t["id"])
+            missed += 1
+    return missed
 
 
 def source_mutant(owner, name, old, new, count=1):
